@@ -97,6 +97,16 @@ var stubNames = []string{"Supported", "SetNoNewPrivs", "LoadFilter"}
 var extraRootConsts = []string{"syscallNumOffset", "archOffset", "argumentOffset", "sizeOfUint32", "sizeOfUint64"}
 
 func targetList() ([]string, error) {
+	if strings.Contains(*targets, "/") {
+		// explicit list "goos/goarch,goos/goarch" (replays); the host row is always present
+		l := []string{"linux/amd64"}
+		for _, s := range strings.Split(*targets, ",") {
+			if s = strings.TrimSpace(s); s != "" && s != "linux/amd64" && strings.Count(s, "/") == 1 {
+				l = append(l, s)
+			}
+		}
+		return l, nil
+	}
 	if *targets != "all" {
 		return append([]string{}, quickTargets...), nil
 	}
@@ -594,7 +604,15 @@ func render(fset *token.FileSet, n ast.Node) string {
 	if err := cfg.Fprint(&buf, fset, n); err != nil {
 		return "<unprintable>"
 	}
-	return strings.Join(strings.Fields(buf.String()), " ")
+	var parts []string
+	for _, l := range strings.Split(buf.String(), "\n") {
+		if l = strings.Join(strings.Fields(l), " "); l != "" {
+			parts = append(parts, l)
+		}
+	}
+	out := strings.Join(parts, "; ")
+	out = strings.ReplaceAll(out, "{;", "{")
+	return strings.ReplaceAll(out, "; }", " }")
 }
 
 /* ---------------------------------------------------------------- UAPI oracle */
